@@ -100,6 +100,10 @@ struct GenParams {
 };
 Scenario GenerateScenario(Tape& t, int stream, const GenParams& gp);
 
+// The line prefix a deps = msvc statement's compiler announces includes with: the default, or
+// (one statement in three) a localised one bound as msvc_deps_prefix on the rule or the statement.
+std::string MsvcPrefix(const Stmt& s);
+
 // Content model ---------------------------------------------------------
 // Returns the active hidden includes of a statement given file contents.
 typedef std::function<bool(const std::string& path, std::string* content)> ContentFn;
